@@ -95,6 +95,25 @@ theorem redispatch_only_exit_messages (st : St) (ip : Bytes) (sp c : Nat) (d : D
     ∃ b, p[22]? = some b ∧ st.exitIds.contains b.toNat = true :=
   redispatch_guard st ip sp c d p c' h
 
+/-- `no_reentry`: in every history of a node whose exit message ids do not contain DataPayload's id, the re-dispatch never
+    hands a DATA cell back to `on_data` (no `reenter` output).  This is the hypothesis under which the opening theorems
+    (`enabled_flip_cause`, `enable_only_from_prev_hop`, …) speak about everything that can reach `exit_data`: with DataPayload's
+    id among the exit ids the model emits `reenter` and does NOT follow the re-entry (see the example below).  For the shipped
+    classes the hypothesis is `data_is_not_an_exit_message` plus the run-time comparison of `overlay.exit_msg_ids` of BOTH
+    TunnelCommunity and HiddenTunnelCommunity with `Gen.EXIT_MSG_IDS_DECLARED` in the harness. -/
+theorem no_reentry (st : St) (evs : List Ev) (hx : st.exitIds.contains Gen.DATA_MSG_ID = false) (fl : List Nat) (c : Nat) :
+    (fl, Out.reenter c) ∉ (run st evs).2 := by
+  induction evs generalizing st with
+  | nil => simp [run]
+  | cons ev evs ih =>
+    intro h
+    simp only [run, List.mem_append, List.mem_map] at h
+    rcases h with ⟨o, ho, heq⟩ | h
+    · cases heq
+      have := step_reenter st ev c ho
+      rw [hx] at this; cases this
+    · exact ih (step st ev).1 (by rw [step_exitIds]; exact hx) h
+
 /-- the checks are not vacuous: dropping the gate, the null test or the hop test is rejected -/
 example : safeSock false false false (.ite .hasTransport (.act .transportSend .done) (.act .queueAppend .done)) = false := by
   decide
@@ -150,7 +169,8 @@ theorem safeExit_sound (e : XEnv) (p : Prog) (x : Sock) (h : safeExit false fals
     the queue and packets re-entering `sendto` after DNS resolution. -/
 theorem step_policy (st : St) (ev : Ev) : ∀ o ∈ (step st ev).2, OutOK st.flags st.pfx o := by
   intro o hmem
-  rcases step_weak st ev o hmem with ⟨c, k, rfl⟩ | ⟨s', hso⟩
+  rcases step_weak st ev o hmem with (⟨c, k, rfl⟩ | ⟨c, rfl⟩) | ⟨s', hso⟩
+  · trivial
   · trivial
   · rcases hso with (⟨h, p, dta, rfl, hg⟩ | ⟨v, data, dest, rfl, hg, hn, _⟩) | ⟨payload, src, rfl, hg⟩
     · exact (gate_iff _ _ _).mp hg
@@ -245,7 +265,7 @@ theorem enabled_flip_cause (st : St) (ev : Ev) (s' : Sock) (hs' : s' ∈ (step s
   | resolved c idx infos => exact Or.inl (viaSock_why st c _ s' hs' hen)
   | outside c v6 host port payload => exact Or.inl (viaSock_why st c _ s' hs' hen)
   | join ip sp c =>
-    rcases mem_joinSock hs' with h | h
+    rcases mem_joinStep hs' with h | h
     · exact Or.inl ⟨s', h, rfl, rfl, hen⟩
     · subst h; simp at hen
 
@@ -302,7 +322,8 @@ theorem enable_only_from_prev_hop (st0 : St) (evs : List Ev) (h0 : Closed st0) (
   obtain ⟨sp, d, p, hm, hn⟩ := hi.2.2 this
   exact ⟨sp, d, p, by simpa using hm, hn⟩
 
-/-- … and therefore every emission of a history is preceded by such a cell from an IP that is the hop IP of an initial
+/-- … and therefore every history with an emission contains (somewhere — `run` does not record positions; the step-level
+    `enabled_flip_cause` is the statement about order) such a cell from an IP that is the hop IP of an initial
     socket with that circuit id or the source IP of a CREATE of the history for that circuit id -/
 theorem emit_requires_prev_hop_data (st0 : St) (evs : List Ev) (h0 : Closed st0) (fl : List Nat) (c : Nat) (v : Bool)
     (data : Bytes) (dest : Dest) (h : (fl, Out.emit c v data dest) ∈ (run st0 evs).2) :
@@ -359,6 +380,11 @@ example : (step { exSt with pfx := 0 :: 2 :: List.replicate 20 7, circs := [⟨5
     (.data [57] 4000 555 ⟨.v4, zeroHost, 0⟩ ((0 :: 2 :: List.replicate 20 7) ++ [6, 0, 0, 0, 7, 1, 2]))).2 = [] := by decide
 example : (step { exSt with pfx := 0 :: 2 :: List.replicate 20 7, circs := [⟨555, [57], 4000, false⟩], exitIds := [17, 18] }
     (.data [57] 4000 555 ⟨.v4, zeroHost, 0⟩ ((0 :: 2 :: List.replicate 20 7) ++ [18, 0, 0, 0, 7, 1, 2]))).2 = [.loc 555 0] := by
+  decide
+
+/-- with DataPayload's id wrongly among the exit ids the model reports the re-entry instead of silently treating it as a local delivery -/
+example : (step { exSt with pfx := 0 :: 2 :: List.replicate 20 7, circs := [⟨555, [57], 4000, false⟩], exitIds := [1, 18] }
+    (.data [57] 4000 555 ⟨.v4, zeroHost, 0⟩ ((0 :: 2 :: List.replicate 20 7) ++ [1, 0, 0, 0, 7, 1, 2]))).2 = [.reenter 555] := by
   decide
 
 /-- an allowed outside datagram is tunnelled back, a forbidden one is not -/
